@@ -244,6 +244,21 @@ def decide(prop, node, sh, context, res, exc, ctx_type=None):
         classes.add("np-int" if "int" in tag and tag.startswith("nu") else "np-float" if tag.startswith("nu") else "int" if tag.endswith(":int") else "float")
     int_only = classes <= {"int", "bool"} and not ({"Divide"} & kinds) and not _negative_exponent(sh, sigma)
     if not int_only and X.magnitude_bits(sh, sigma, limit=498) is None:
+        # IEEE overflow territory: an OverflowError, an infinity or a NaN are all left alone here.  What
+        # is never acceptable is a FINITE number that has nothing to do with the value (a huge quotient
+        # silently answered with 0.0): decided when the exact value is affordable and beyond 1e200
+        if exc is None and sh[0] != "Equal" and isinstance(res, (int, float)) and not isinstance(res, bool) and res == res and abs(res) != float("inf"):
+            try:
+                want = X.ev(sh, sigma) if X.magnitude_bits(sh, sigma, limit=20000) is not None else None
+            except X.Undef:
+                want = None
+            if want is not None and not want.approx and not want.ill and abs(want.v) > Fraction(10) ** 200:
+                rec.arm("eval:overflow-region:finite-answer-checked")
+                off = abs(Fraction(res) - want.v)
+                if off > abs(want.v) / 2:
+                    bad("eval/float/wrong-value", "floating-point evaluation is off by more than rounding",
+                        f"returned the finite number {_r(res)[:40]} for an expression whose exact value is about 10^{len(str(abs(want.v.numerator) // want.v.denominator)) - 1} (beyond the floats: an error, inf or nan would be understandable)")
+                return
         rec.skip("eval: float regime with intermediate magnitudes that may exceed 1e150 (IEEE overflow is outside the workload)")
         return
     # ---- equations
